@@ -932,6 +932,9 @@ fn addblock_attestation_count(b: &[u8]) -> Option<u32> {
     Some(u32::from_le_bytes([b[at + 1], b[at + 2], b[at + 3], b[at + 4]]))
 }
 
+/// pseudo message name of the size-boundary fixed cases
+const SIZE_BOUNDARY: &str = "RemoveBlock@exact-size";
+
 pub struct C19;
 
 impl C19 {
@@ -1246,6 +1249,12 @@ impl Prop for C19 {
             })
             .boxed()
     }
+    fn fixed_cases(&self) -> Vec<Case> {
+        [65_535u64, 65_536, 65_537, MAX_MESSAGE_SIZE as u64 - 1, MAX_MESSAGE_SIZE as u64]
+            .iter()
+            .map(|t| Case { msg: SIZE_BOUNDARY.to_string(), v: V::U(*t), mutations: vec![] })
+            .collect()
+    }
     fn min_nontrivial(&self, tier: Tier) -> usize {
         // called once, after all shards have finished: enforce the per-type hit floor
         let floor = tier.pick(50u64, 500u64);
@@ -1263,13 +1272,16 @@ impl Prop for C19 {
         tier.pick(1500, 10_000)
     }
     fn run(&self, case: &Case, st: &mut CaseStats, ctx: &Ctx) -> Result<(), Violation> {
-        // Size boundary (once per process): messages whose encoding is just below, at and just
-        // above half and the whole of the documented maximum (128 KiB, inclusive) survive the wire.
-        static BOUNDARY: std::sync::Once = std::sync::Once::new();
-        let mut boundary_violation: Option<Violation> = None;
-        BOUNDARY.call_once(|| {
+        // Size boundary cases (fixed cases): a message whose encoding has exactly the given size
+        // (just below, at and above 64 KiB; just below and at the documented, inclusive maximum of
+        // 128 KiB) survives the wire.
+        if case.msg == SIZE_BOUNDARY {
             use vls_protocol::msgs;
             use vls_protocol::serde_bolt::LargeOctets;
+            let total = match &case.v {
+                V::U(t) => *t as usize,
+                _ => return Ok(()),
+            };
             let mk = |n: usize| {
                 let header: bitcoin::block::Header = bitcoin::consensus::deserialize(&[0u8; 80]).expect("header");
                 msgs::Message::RemoveBlock(msgs::RemoveBlock {
@@ -1279,31 +1291,24 @@ impl Prop for C19 {
                 })
             };
             let overhead = mk(0).inner().as_vec().len();
-            for total in [65_535usize, 65_536, 65_537, MAX_MESSAGE_SIZE - 1, MAX_MESSAGE_SIZE] {
-                let m = mk(total - overhead);
-                let bytes = m.inner().as_vec();
-                assert_eq!(bytes.len(), total, "harness: size arithmetic");
-                st.class(format!("size-boundary:{}", total));
-                match guard(|| msgs::from_vec(bytes.clone())) {
-                    Ok(Ok(m2)) => {
-                        if m2.inner().as_vec() != bytes {
-                            boundary_violation = Some(Violation::new("C19:size-boundary:re-encoding-differs", format!("a RemoveBlock of {} bytes re-encodes differently", total)));
-                        }
-                    }
-                    Ok(Err(e)) => {
-                        boundary_violation = Some(Violation::new("C19:size-boundary:decode-failed", format!("from_vec(as_vec(m)) = Err({:?}) for a RemoveBlock whose encoding is {} bytes (maximum {})", e, total, MAX_MESSAGE_SIZE)));
-                    }
-                    Err(p) => {
-                        boundary_violation = Some(Violation::new("C19:size-boundary:decode-panic", format!("decoding a {} byte message panicked: {}", total, p)));
-                    }
-                }
-                if boundary_violation.is_some() {
-                    break;
-                }
+            if total < overhead || total > MAX_MESSAGE_SIZE {
+                return Ok(());
             }
-        });
-        if let Some(v) = boundary_violation {
-            return ctx.report(st, v);
+            let bytes = mk(total - overhead).inner().as_vec();
+            assert_eq!(bytes.len(), total, "harness: size arithmetic");
+            st.class(format!("size-boundary:{}", total));
+            st.nontrivial_shape(("size-boundary", total));
+            return match guard(|| msgs::from_vec(bytes.clone())) {
+                Ok(Ok(m2)) => {
+                    if m2.inner().as_vec() != bytes {
+                        ctx.report(st, Violation::new("C19:size-boundary:re-encoding-differs", format!("a RemoveBlock of {} bytes re-encodes differently", total)))
+                    } else {
+                        Ok(())
+                    }
+                }
+                Ok(Err(e)) => ctx.report(st, Violation::new("C19:size-boundary:decode-failed", format!("from_vec(as_vec(m)) = Err({:?}) for a RemoveBlock whose encoding is {} bytes (maximum {})", e, total, MAX_MESSAGE_SIZE))),
+                Err(p) => ctx.report(st, Violation::new("C19:size-boundary:decode-panic", format!("decoding a {} byte message panicked: {}", total, p))),
+            };
         }
         let idx = registry_index(&case.msg);
         let e = &REGISTRY[idx];
